@@ -838,7 +838,9 @@ def r116(rep: Report, ctx: Ctx) -> None:
                 ["Node._load_logic_into_logic_list"])
     rep.rule("R1.17", "a logic block starts as a faithful, private mirror of "
              "its logic node", 10)
-    check_table(rep, ctx, "R1.17", TABLE, ["LogicBlockHolder.__init__"])
+    check_table(rep, ctx, "R1.17", TABLE, [
+        "LogicBlockHolder.__init__", "Node.get_outgoing_logic_by_indices",
+        "Node.set_outgoing_logic"])
     rep.rule("R1.18", "AND / OR merges are validated against the predecessor "
              "sets of the merge node (multiset of all arriving paths)", 11)
     check_table(rep, ctx, "R1.18", TABLE,
